@@ -20,22 +20,22 @@ PROFILE = {"C16": "handshake", "C03": "go", "C04": "position", "C13": "determini
 TIERS = {
     "quick": {"C16": dict(procs=16, num=6, max_cmds=12), "C03": dict(procs=16, num=8, max_cmds=12),
               "C04": dict(procs=16, num=5, max_cmds=10), "C13": dict(procs=16, num=3, max_cmds=8, pressure=dict(procs=8, num=1, max_cmds=9, runs=3),
-                          heavy=dict(procs=2, num=1, max_cmds=5, runs=3)),
+                          heavy=dict(procs=2, num=1, max_cmds=5, runs=3), huge=dict(procs=1, num=1)),
               "C09": dict(procs=16, num=5, max_cmds=12)},
     "thorough": {"C16": dict(procs=16, num=120, max_cmds=14), "C03": dict(procs=16, num=200, max_cmds=14),
                  "C04": dict(procs=16, num=80, max_cmds=12), "C13": dict(procs=16, num=60, max_cmds=8, pressure=dict(procs=16, num=3, max_cmds=12, runs=4),
-                             heavy=dict(procs=5, num=1, max_cmds=8, runs=3)),
+                             heavy=dict(procs=5, num=1, max_cmds=8, runs=3), huge=dict(procs=2, num=2)),
                  "C09": dict(procs=16, num=80, max_cmds=14)},
 }
 
 
-def seeds_file(work):
-    fens = vlib.load_fens(os.path.join(vlib.VERIF, "seeds", "rules.fen"))
-    return vlib.write_seeds(fens, os.path.join(work, "seeds.ndjson"))
+def seeds_file(work, name="rules.fen"):
+    fens = vlib.load_fens(os.path.join(vlib.VERIF, "seeds", name))
+    return vlib.write_seeds(fens, os.path.join(work, "seeds_%s.ndjson" % name.split(".")[0]))
 
 
 def gen_scripts(work, profile, procs, num, seed, max_cmds):
-    seeds = seeds_file(work)
+    seeds = seeds_file(work, "huge.fen" if profile == "huge" else "rules.fen")
     cfg = "UciGen_%s.cfg" % profile
 
     def one(i):
@@ -229,6 +229,14 @@ def run_process_level(prop, tier, seed, R, scripts_override=None):
                 for gi, g in enumerate(hg):
                     for si, sc in enumerate(proc.load_scripts(g[0])):
                         jobs.insert(0, (100 + gi, si, sc))     # the long ones start first
+            if T.get("huge"):
+                # ... and a pawn endgame searched to depth 17: more than 2^20 table entries within one search
+                U = T["huge"]
+                ug = gen_scripts(work, "huge", U["procs"], U["num"], seed + 19, 3)
+                for gi, g in enumerate(ug):
+                    for si, sc in enumerate(proc.load_scripts(g[0])):
+                        if any(c["kind"] == "go" for c in sc) and sc[[c["kind"] for c in sc].index("go") - 1]["kind"] == "position":
+                            jobs.insert(0, (200 + gi, si, sc))
 
             def prun(job):
                 gi, si, sc = job
